@@ -245,119 +245,96 @@ def groups(ds):
 
 
 def distinct_orders(items):
-    """All distinct permutations, in the order of first occurrence in itertools.permutations (Corr_C24.dedup_first)."""
-    seen, out = set(), []
-    for p in itertools.permutations(items):
-        if p not in seen:
-            seen.add(p)
-            out.append(list(p))
-    return out
+    """All distinct permutations of a multiset."""
+    return sorted(set(itertools.permutations(items)))
 
 
 EMPTY_SNAP = ((), (), (), None)
 
 
-def run_case(rn, pre, t, items, orders, watch):
-    """Runs every order on a fresh container.  Returns (prefix steps, per order steps); a step is
-    (raised, snapshots after, snapshots before)."""
-    out, pre_steps = [], None
-    for o in orders:
-        c = rn.new()
-        prev = tuple(rn.snap(c, wt) for wt in watch)
-        assert all(p == EMPTY_SNAP for p in prev)
-        ps = []
-        for (pt, pi) in pre:
-            r = rn.insert(c, pt, pi)
-            cur = tuple(rn.snap(c, wt) for wt in watch)
-            ps.append((r, cur, prev))
-            prev = cur
-        if pre_steps is None:
-            pre_steps = ps
-        elif ps != pre_steps:
-            raise AssertionError("the same prefix history behaved differently on two fresh containers")
-        steps = []
-        for i in o:
-            r = rn.insert(c, t, i)
-            cur = tuple(rn.snap(c, wt) for wt in watch)
-            steps.append((r, cur, prev))
-            prev = cur
-        out.append(steps)
-    return (pre_steps or []), out
+def run_sequence(rn, watch, seq):
+    """Insert the (time point, member) pairs of seq into a FRESH container.  A step is (raised, snapshots after, before)."""
+    c = rn.new()
+    prev = tuple(rn.snap(c, wt) for wt in watch)
+    assert all(p == EMPTY_SNAP for p in prev)
+    steps = []
+    for (t, i) in seq:
+        r = rn.insert(c, t, i)
+        cur = tuple(rn.snap(c, wt) for wt in watch)
+        steps.append((r, cur, prev))
+        prev = cur
+    return steps
 
 
-def property_verdict(obs, pre_steps, n_sims_ok):
-    """The property, evaluated on the observations only: (1) every order gives the same 'some insertion raised';
-    (2) a raising insertion leaves every watched attribute as it was."""
-    problems = []
-    verdicts = set(any(r for r, _, _ in steps) for steps in obs)
-    if n_sims_ok and len(verdicts) > 1:
-        problems.append("order-dependent")
-    for steps in [pre_steps] + obs:
-        for r, cur, prev in steps:
-            if r and cur != prev:
-                problems.append("rejected-insertion-changed-bookkeeping")
-                break
-    return sorted(set(problems))
+def run_case(rn, pre, t, prefix, children, watch):
+    """Returns (history steps, prefix steps, one step per child).  Every child is run on a fresh container after the
+    whole history and prefix; the history/prefix part must behave identically every time."""
+    base = list(pre) + [(t, i) for i in prefix]
+    ref = None
+    child_steps = []
+    for ch in (children or [None]):
+        steps = run_sequence(rn, watch, base + ([(t, ch)] if ch is not None else []))
+        if ref is None:
+            ref = steps[:len(base)]
+        elif steps[:len(base)] != ref:
+            raise AssertionError("the same insertion sequence behaved differently on two fresh containers")
+        if ch is not None:
+            child_steps.append(steps[-1])
+    return ref[:len(pre)], ref[len(pre):], child_steps
+
+
+def noop_violations(steps):
+    return any(r and cur != prev for r, cur, prev in steps)
 
 
 # ------------------------------------------------------------------------------------------------ generation
-def multisets(pool, k):
-    return itertools.combinations_with_replacement(pool, k)
-
-
 def gen_cases(w, rng, quick):
-    """Yields (kind, pre, t, items, orders(None = all), watch, exhaustive_block_name)."""
+    """Yields (kind, pre, t, prefix, children, watch, block, group) -- group identifies the family of sequences over
+    which the order-independence oracle is evaluated (same container, same history)."""
     n = w.n
     core = [n[0, "A1"], n[0, "A1r"], n[0, "A2"], n[0, "I"], n[0, "D"], n[0, "cA"], n[0, "cI"], n[1, "A1"], n[1, "I"], n["Bt"]]
     sims = [n["S0"], n["S1"], n["S01"]]
     wide = core + [n[0, "Ae"], n[0, "Ae2"], n[0, "Ih"], n[1, "A2"], n[1, "D"], n[1, "cA"], n["U1"], n["U2"], n["Bf"]]
     wsims = sims + [n["Sb"], n["Su"]]
-    for kind in ("CInst", "CDur", "CProb"):
-        watch = [0] if kind == "CInst" else [0, 1]
+    kinds = ("CInst", "CDur", "CProb")
+
+    def watch_of(kind):
+        return [0] if kind == "CInst" else [0, 1]
+
+    for kind in kinds:
+        M = core + (sims if kind != "CProb" else [])
         pre0 = [] if kind == "CInst" else [(1, n[0, "A2"])]       # another time point already assigns x0
-        # block A (exhaustive): every multiset of <= 4 members (<= 1 simulated effect) of the core universe, all orders
-        for k in range(0, 5):
-            for ms in multisets(core, k):
-                yield (kind, pre0, 0, list(ms), None, watch, "A")
-            if kind != "CProb" and k >= 1:
-                for s in sims:
-                    for ms in multisets(core, k - 1):
-                        yield (kind, pre0, 0, [s] + list(ms), None, watch, "A")
-        # block B (exhaustive): collections of <= 3 members inserted after a history at the SAME time point that already
-        # contains an accepted and a rejected insertion (reachable, non-empty states)
-        hist = [(0, n[1, "A2"]), (0, n[1, "I"])]                  # x1 := 2 accepted, x1 += 1 rejected
-        for k in range(1, 4):
-            for ms in multisets(core, k):
-                yield (kind, hist, 0, list(ms), None, watch, "B")
+        # block A (exhaustive): every sequence of <= 4 members of the core universe = every insertion order of every
+        # multiset of <= 4 members
+        for prefix in itertools.product(M, repeat=3):
+            yield (kind, pre0, 0, list(prefix), M, watch_of(kind), "A", (kind, "A"))
+        # block B (exhaustive): every sequence of <= 3 members after a history at the SAME time point that already
+        # contains an accepted and a rejected insertion (reachable, non-empty containers)
+        hists = [[(0, n[1, "A2"]), (0, n[1, "I"])]]               # x1 := 2 accepted, x1 += 1 rejected
         if kind != "CProb":
-            hist2 = [(0, n["S0"]), (0, n[0, "I"]), (0, n[1, "I"])]  # simulated effect held, x0 += 1 rejected (defect 27 shape)
-            for k in range(1, 4):
-                for ms in multisets(core, k):
-                    yield (kind, hist2, 0, list(ms), None, watch, "B")
+            hists.append([(0, n["S0"]), (0, n[0, "I"]), (0, n[1, "I"])])   # simulated effect held, x0 += 1 rejected (defect 27)
+        for hi, hist in enumerate(hists):
+            Mb = core if hi == 1 else M
+            for prefix in itertools.product(Mb, repeat=2):
+                yield (kind, hist, 0, list(prefix), Mb, watch_of(kind), "B", (kind, "B%d" % hi))
     if quick:
-        n_rand, maxlen, n_orders = 150, 6, 12
+        n_rand, maxlen, n_orders = 60, 6, 10
     else:
-        n_rand, maxlen, n_orders = 2500, 7, 40
-        # block C (exhaustive, thorough only): 4 effects + 1 simulated effect (120 orders) on the core universe,
-        # and every multiset of <= 3 members of the wide universe
+        n_rand, maxlen, n_orders = 1500, 7, 30
+        # block C (exhaustive, thorough only): every sequence of <= 5 members of the core universe on the two action
+        # classes, and every sequence of <= 3 members of the wide universe on all three containers
         for kind in ("CInst", "CDur"):
-            watch = [0] if kind == "CInst" else [0, 1]
-            for s in sims:
-                for ms in multisets(core, 4):
-                    yield (kind, [], 0, [s] + list(ms), None, watch, "C")
-        for kind in ("CInst", "CDur", "CProb"):
-            watch = [0] if kind == "CInst" else [0, 1]
-            for k in range(2, 4):
-                for ms in multisets(wide, k):
-                    yield (kind, [], 0, list(ms), None, watch, "C")
-                if kind != "CProb":
-                    for s in wsims:
-                        for ms in multisets(wide, k - 1):
-                            yield (kind, [], 0, [s] + list(ms), None, watch, "C")
-    # block R (random): collections of 5..maxlen members of the wide universe, random prefix history, sampled orders
-    for _ in range(n_rand):
-        kind = rng.choice(["CInst", "CDur", "CProb"])
-        watch = [0] if kind == "CInst" else [0, 1]
+            M = core + sims
+            for prefix in itertools.product(M, repeat=4):
+                if sum(1 for i in prefix if w.is_sim(i)) <= 1:
+                    yield (kind, [], 0, list(prefix), M, watch_of(kind), "C", (kind, "C5"))
+        for kind in kinds:
+            M = wide + (wsims if kind != "CProb" else [])
+            for prefix in itertools.product(M, repeat=2):
+                yield (kind, [], 0, list(prefix), M, watch_of(kind), "C", (kind, "Cw"))
+    # block R (random): collections of 5..maxlen members of the wide universe, random history, sampled orders
+    for ri in range(n_rand):
+        kind = rng.choice(kinds)
         k = rng.randint(5, maxlen)
         items = [rng.choice(wide) for _ in range(k)]
         if kind != "CProb" and rng.random() < 0.6:
@@ -366,19 +343,28 @@ def gen_cases(w, rng, quick):
         for _ in range(rng.randint(0, 3)):
             pt = 0 if kind == "CInst" else rng.choice([0, 1])
             pre.append((pt, rng.choice(wide)))
-        orders = [list(items_idx) for items_idx in [rng.sample(items, k) for _ in range(n_orders)]]
-        orders.append(list(items))
-        orders.append(list(reversed(items)))
-        yield (kind, pre, 0, items, orders, watch, "R")
+        orders = [rng.sample(items, k) for _ in range(n_orders)] + [list(items), list(reversed(items))]
+        for o in orders:
+            yield (kind, pre, 0, o, [], watch_of(kind), "R", (kind, "R%d" % ri))
 
 
-def ser_case(w, kind, pre, t, items, orders, watch, obs):
+def coq_failing_capped(ctx, cases, preamble, shard):
+    """ctx.coq_failing runs all shards of one call in parallel; call it on batches so that at most C24_PAR coqc run at once."""
+    import os
+    par = max(1, int(os.environ.get("C24_PAR", "4")))
+    bad, step = [], par * shard
+    for base in range(0, len(cases), step):
+        bad += [base + i for i in ctx.coq_failing(cases[base:base + step], "ok", imports=IMPORTS, preamble=preamble, shard=shard, ty="case")]
+    return bad
+
+
+def ser_case(kind, pre, t, prefix, children, watch, obs):
     return "Case %s U %s %s %s %s %s VT %s" % (
         kind,
         glist([gpair(gn(pt), gnat(pi)) for pt, pi in pre]),
         gn(t),
-        glist([gnat(i) for i in items]),
-        glist([glist([gnat(i) for i in o]) for o in orders]) if orders is not None else "[]",
+        glist([gnat(i) for i in prefix]),
+        "CH%d" % children if isinstance(children, int) else glist([gnat(i) for i in children]),
         glist([gn(x) for x in watch]),
         glist([str(g) for g in obs]))
 
@@ -389,82 +375,143 @@ def run(ctx):
     ok_proofs = ctx.check_props(extra=["theories/Corr/Corr_C24.v"])
     w = World()
     runners = {k: Runner(w, k) for k in ("CInst", "CDur", "CProb")}
-    preamble = ("From Coq Require Import Uint63.\nDefinition U : list item :=\n [ %s ].\nDefinition VT : list value := %s.\n" % (
-        "\n ; ".join(w.gmembers), glist(w.vtable)) + "Local Open Scope uint63_scope.\n")
+    child_lists = {}     # the few distinct children lists are defined once in the preamble
 
+    import time
+    t_start = time.time()
     cases, raw = [], []
-    stats = {"by_container": {}, "by_block": {}, "by_size": {}, "orders_run": 0, "insertions": 0, "rejected_insertions": 0,
-             "collections_that_raise": 0, "collections_with_simulated_effect": 0, "distinct_collections": 0}
-    distinct = set()
-    oracle_fail = []
-    for (kind, pre, t, items, orders, watch, block) in gen_cases(w, ctx.rng, ctx.quick):
+    stats = {"by_container": {}, "by_block": {}, "sequences_run_on_fresh_containers": 0, "insertions": 0,
+             "insertion_steps_compared": 0, "rejected_steps_compared": 0}
+    flags = {}           # group -> {sequence of members -> tuple of raised flags}
+    prop_fail = {}       # case index -> list of reasons (the property itself fails on the observations)
+    for (kind, pre, t, prefix, children, watch, block, group) in gen_cases(w, ctx.rng, ctx.quick):
         rn = runners[kind]
-        all_orders = distinct_orders(items) if orders is None else orders
-        pre_steps, obs = run_case(rn, pre, t, items, all_orders, watch)
+        pre_steps, prefix_steps, child_steps = run_case(rn, pre, t, prefix, children, watch)
         anomalies = []
-        digits = steps_digits(pre_steps, anomalies)
-        for steps in obs:
-            digits += steps_digits(steps, anomalies)
-        nsim = sum(1 for i in items if w.is_sim(i)) + sum(1 for pt, pi in pre if pt == t and w.is_sim(pi))
-        verdict = property_verdict(obs, pre_steps, nsim <= 1)
+        digits = steps_digits(pre_steps, anomalies) + steps_digits(prefix_steps, anomalies)
+        for st in child_steps:
+            digits += steps_digits([st], anomalies)
         idx = len(cases)
-        cases.append(ser_case(w, kind, pre, t, items, orders, watch, groups(digits)))
-        if anomalies:
-            verdict = sorted(set(verdict + ["bookkeeping-changed-otherwise-than-by-one-addition:" + a for a in anomalies]))
-        raw.append({"container": kind, "pre": pre, "time_point": t, "collection": items,
-                    "members": [repr(w.members[i][:2]) if w.is_sim(i) else repr(w.members[i]) for i in items],
-                    "orders": "all distinct permutations" if orders is None else orders, "watch": watch, "block": block,
-                    "some_insertion_raised_per_order": [any(r for r, _, _ in steps) for steps in obs],
-                    "_args": (kind, pre, t, items, all_orders, watch)})
-        if verdict:
-            oracle_fail.append((idx, verdict))
+        ck = tuple(children)
+        if ck and ck not in child_lists:
+            child_lists[ck] = len(child_lists)
+        cases.append(ser_case(kind, pre, t, prefix, child_lists[ck] if ck else [], watch, groups(digits)))
+        raw.append({"container": kind, "history": pre, "time_point": t, "prefix": prefix, "children": list(children),
+                    "members": {i: (repr(w.members[i][:2]) if w.is_sim(i) else repr(w.members[i])) for i in set(prefix) | set(children) | set(p[1] for p in pre)},
+                    "watch": watch, "block": block, "group": group})
+        reasons = []
+        if noop_violations(pre_steps + prefix_steps + child_steps):
+            reasons.append("rejected-insertion-changed-bookkeeping")
+        reasons += ["bookkeeping-changed-otherwise-than-by-one-addition:" + a for a in sorted(set(anomalies))]
+        if reasons:
+            prop_fail[idx] = reasons
+        # raised flags of every full sequence, for the order-independence oracle
+        g = flags.setdefault(group, {"pre": pre, "t": t, "seqs": {}, "case_of": {}})
+        pf = tuple(r for r, _, _ in prefix_steps)
+        for j in range(1, len(prefix) + 1):
+            g["seqs"].setdefault(tuple(prefix[:j]), pf[:j])
+        g["case_of"].setdefault(tuple(prefix), idx)
+        for ch, st in zip(children, child_steps):
+            g["seqs"][tuple(prefix) + (ch,)] = pf + (st[0],)
+            g["case_of"][tuple(prefix) + (ch,)] = idx
+        nfresh = max(1, len(children))
         stats["by_container"][kind] = stats["by_container"].get(kind, 0) + 1
         stats["by_block"][block] = stats["by_block"].get(block, 0) + 1
-        stats["by_size"][len(items)] = stats["by_size"].get(len(items), 0) + 1
-        stats["orders_run"] += len(all_orders)
-        stats["insertions"] += len(all_orders) * len(items)
-        stats["rejected_insertions"] += sum(1 for steps in obs for r, _, _ in steps if r)
-        stats["collections_that_raise"] += 1 if any(r for steps in obs for r, _, _ in steps) else 0
-        stats["collections_with_simulated_effect"] += 1 if nsim else 0
-        if len(items) >= 2:
-            distinct.add((kind, tuple(pre), tuple(sorted(items))))
-    stats["distinct_collections"] = len(distinct)
+        stats["sequences_run_on_fresh_containers"] += nfresh
+        stats["insertions"] += nfresh * (len(pre) + len(prefix)) + len(children)
+        stats["insertion_steps_compared"] += len(pre) + len(prefix) + len(children)
+        stats["rejected_steps_compared"] += sum(1 for r, _, _ in pre_steps + prefix_steps + child_steps if r)
 
-    bad = ctx.coq_failing(cases, "ok", imports=IMPORTS, preamble=preamble, shard=120 if ctx.quick else 200, ty="case")
-    oracle_idx = dict(oracle_fail)
+    # order-independence oracle, straight from the property text: for every multiset whose orders were all run (or
+    # sampled), with at most one simulated effect at the time point, "some insertion raised" must not depend on the order
+    order_dep = []
+    ms_checked = ms_nontrivial = ms_raising = 0
+    for group, g in flags.items():
+        pre_sims = sum(1 for pt, pi in g["pre"] if pt == g["t"] and w.is_sim(pi))
+        by_ms = {}
+        for seq, fl in g["seqs"].items():
+            by_ms.setdefault(tuple(sorted(seq)), {})[seq] = any(fl)
+        for ms, res in by_ms.items():
+            if pre_sims + sum(1 for i in ms if w.is_sim(i)) > 1:
+                continue
+            exhaustive_ms = group[1][0] != "R"
+            if exhaustive_ms and len(res) != len(distinct_orders(ms)):
+                continue                                    # not all orders present (longer than the exhaustive depth)
+            ms_checked += 1
+            if len(res) > 1:
+                ms_nontrivial += 1
+            if any(res.values()):
+                ms_raising += 1
+            if len(set(res.values())) > 1:
+                order_dep.append((group, ms, res))
+                for seq in res:
+                    ci = g["case_of"].get(seq)
+                    if ci is not None:
+                        prop_fail.setdefault(ci, [])
+                        if "order-dependent" not in prop_fail[ci]:
+                            prop_fail[ci].append("order-dependent")
+    stats["multisets_checked_for_order_independence"] = ms_checked
+    stats["multisets_with_2_or_more_distinct_orders"] = ms_nontrivial
+    stats["multisets_on_which_some_insertion_raises"] = ms_raising
+
+    preamble = ("From Coq Require Import Uint63.\nDefinition U : list item :=\n [ %s ].\nDefinition VT : list value := %s.\n" % (
+        "\n ; ".join(w.gmembers), glist(w.vtable)))
+    for ck, k in child_lists.items():
+        preamble += "Definition CH%d : list nat := %s.\n" % (k, glist([gnat(i) for i in ck]))
+    preamble += "Local Open Scope uint63_scope.\n"
+
+    t_impl = time.time()
+    bad = coq_failing_capped(ctx, cases, preamble, shard=400 if ctx.quick else 600)
+    stats["seconds_running_implementation"] = round(t_impl - t_start, 1)
+    stats["seconds_comparing_in_coq"] = round(time.time() - t_impl, 1)
+    stats["seconds_rechecking_theorems"] = round(t_start - ctx.t0, 1)
+    # failing cases are grouped by tag set (container, block, what the property oracle says) and the two smallest of
+    # every group are reported with full traces (model trace from Coq, observed trace): one coqc call each
+    groups_ = {}
     for i in bad:
         c = raw[i]
-        verdict = oracle_idx.get(i, [])
-        model = ctx.coq_show("(model_pre c, model_obs c)", imports=IMPORTS, preamble=preamble + "Definition c := %s.\n" % cases[i])
-        kind_, pre_, t_, items_, orders_, watch_ = c.pop("_args")
-        ps_, obs_ = run_case(runners[kind_], pre_, t_, items_, orders_, watch_)
-        c["observed_trace (raised, snapshots after = per watched point (effect tags, fluents_assigned, fluents_inc_dec, simulated effect))"] = {
-            "prefix": [(r, cur) for r, cur, _ in ps_], "orders": [[(r, cur) for r, cur, _ in st] for st in obs_][:30]}
-        tags = ["c24", c["container"], "block-" + c["block"]] + verdict
-        ctx.fail("corr", "insertion orders of a collection: implementation and model disagree on raised flags or bookkeeping "
-                 "(corr:C24:add_item/tadd_item)%s" % ("; property fails: " + ",".join(verdict) if verdict else ""),
-                 tags, {"case": c, "gallina_case": cases[i][:3000], "model_trace": model,
-                        "theorem_or_corr": "corr:C24:check_conflicting_effects/_add_effect_instance/set_simulated_effect"},
-                 bool(verdict))
-    for i, verdict in oracle_fail:
-        if i in bad:
-            continue
-        c = raw[i]
-        c.pop("_args", None)
-        ctx.fail("oracle", "property fails on the implementation although model and implementation agree: %s" % ",".join(verdict),
-                 ["c24", c["container"], "block-" + c["block"]] + verdict, {"case": c, "gallina_case": cases[i][:3000]}, True)
+        key = tuple(["c24", c["container"], "block-" + c["block"]] + sorted(prop_fail.get(i, [])))
+        groups_.setdefault(key, []).append(i)
+    for key, idxs in sorted(groups_.items()):
+        idxs.sort(key=lambda i: (len(raw[i]["prefix"]) + len(raw[i]["history"]) + len(raw[i]["children"]), i))
+        for i in idxs[:2]:
+            c = dict(raw[i])
+            reasons = prop_fail.get(i, [])
+            model = ctx.coq_show("model_obs c", imports=IMPORTS, preamble=preamble + "Definition c := %s.\n" % cases[i])
+            ps_, fs_, cs_ = run_case(runners[c["container"]], c["history"], c["time_point"], c["prefix"], c["children"], c["watch"])
+            c["observed (raised, snapshots after; a snapshot = (effect tags, fluents_assigned, fluents_inc_dec, simulated effect))"] = {
+                "history": [(r, cur) for r, cur, _ in ps_], "prefix": [(r, cur) for r, cur, _ in fs_],
+                "children": [(ch, r, cur) for ch, (r, cur, _) in zip(c["children"], cs_)]}
+            ctx.fail("corr", "insertion sequences: implementation and model disagree on raised flags or bookkeeping "
+                     "(corr:C24:add_item/tadd_item)%s" % ("; property fails: " + ",".join(reasons) if reasons else ""),
+                     list(key), {"case": c, "gallina_case": cases[i][:3000], "model (history, prefix, children)": model,
+                                 "failing_cases_with_these_tags": len(idxs), "failing_cases_total": len(bad),
+                                 "theorem_or_corr": "corr:C24:check_conflicting_effects/_add_effect_instance/set_simulated_effect"},
+                     bool(reasons))
+    bad_set = set(bad)
+    only_oracle = [(i, v) for i, v in sorted(prop_fail.items()) if i not in bad_set]
+    for i, reasons in only_oracle[:5]:
+        ctx.fail("oracle", "property fails on the implementation although model and implementation agree: %s" % ",".join(reasons),
+                 ["c24", raw[i]["container"], "block-" + raw[i]["block"]] + sorted(reasons),
+                 {"case": raw[i], "gallina_case": cases[i][:3000], "order_dependent_multisets": [
+                     {"group": g_, "multiset": ms, "some_insertion_raised_by_order": {str(k): v for k, v in res.items()}}
+                     for g_, ms, res in order_dep[:3]]}, True)
     if not ok_proofs:
         ctx.proof_broken()
     ctx.finish({
         "evaluations": len(cases),
-        "distinct_nontrivial": len(distinct),
-        "rule": "a case = (container, prefix history, collection); distinct = distinct (container, prefix, multiset) with >= 2 members; "
-                "every case runs all permutations (blocks A, B, C) or the sampled orders (block R), each on a fresh container",
+        "distinct_nontrivial": ms_nontrivial,
+        "rule": "a case = (container, history, prefix sequence, children each tried after the prefix); evaluations = cases compared inside Coq; "
+                "distinct_nontrivial = distinct (container, history, multiset) with >= 2 distinct insertion orders, all of which "
+                "(blocks A, B, C) or a sample of which (block R) were run, each on a fresh container, and compared with the model",
         "exhaustive": True,
-        "exhaustive_scope": "blocks A/B(/C): every multiset of the stated size over the stated universe, every insertion order; block R is random",
-        "samples": [{k: v for k, v in r.items() if k != "_args"} for r in (raw[40:41] + raw[len(raw) // 2: len(raw) // 2 + 1] + raw[-1:])],
+        "exhaustive_scope": "block A: every insertion sequence of <= 4 members of the core universe (10 effects over x0, x1 and a Boolean fluent "
+                            "+ 3 simulated effects; Problem: effects only) on the three containers; block B: every sequence of <= 3 members after "
+                            "two histories containing a rejected insertion; thorough adds block C (<= 5 members; <= 3 members of the wide universe); "
+                            "block R is random (5..7 members, sampled orders)",
+        "samples": raw[40:41] + raw[len(raw) // 2: len(raw) // 2 + 1] + raw[-1:],
         "distribution": stats,
-        "traces_validated_against_impl": stats["orders_run"],
+        "traces_validated_against_impl": stats["sequences_run_on_fresh_containers"],
     }, "proof", assumptions=[
         "effects are abstracted to (fluent, is-Boolean-fluent, kind, value, is-conditional); values to numeric constant / object / expression identity",
         "at most one simulated effect per time point in a collection (set_simulated_effect replaces)",
